@@ -463,14 +463,44 @@ Definition do_zremrangebyscore p s ts k lo hi : store * reply :=
 Definition list_set_meta (s : store) (k : bytes) (h : hdr) (hd tl : Z) : option store :=   (* lSetMeta *)
   let size := tl - hd + 1 in
   if size <? 0 then None else if size =? 0 then Some (meta_del s TL k) else Some (meta_put s TL k (mkM h hd tl)).
-Fixpoint put_seq (s : store) (k : bytes) (ver : Z) (seq delta : Z) (vs : list bytes) : option store :=
+(* puts the values at consecutive sequence numbers; stops at the first one that is already stored ("should not
+   override"): the elements written so far stay in the write batch, which fixListKey then commits *)
+Fixpoint put_seq (s : store) (k : bytes) (ver : Z) (seq delta : Z) (vs : list bytes) : store * bool :=
   match vs with
-  | [] => Some s
+  | [] => (s, true)
   | v :: r => match el_get s TL k ver (SI seq) with
-              | Some _ => None                                   (* "should not override": fixListKey path, not modelled *)
+              | Some _ => (s, false)
               | None => put_seq (el_put s TL k ver (SI seq) (EB v)) k ver (seq + delta) delta r
               end
   end.
+
+(* fixListKey / scanfixListKey: recompute head and tail of a live list from the stored elements of its generation *)
+Fixpoint contig (l : list Z) : bool :=
+  match l with
+  | a :: r => match r with b :: _ => (a + 1 =? b) && contig r | [] => true end
+  | [] => true
+  end.
+Definition list_seqs (s : store) (k : bytes) (ver : Z) : list Z :=
+  flat_map (fun e => match fst e with SI i => [i] | SB _ => [] end) (sorted_els (el_of s TL k ver)).
+Inductive fixop := FNone | FDel | FPut (m : meta).
+Definition scanfix (p : policy) (s : store) (ts : Z) (k : bytes) : fixop :=
+  match coll_header p s ts TL k with
+  | (h, ud, ex) =>
+      if not_exist_or_expired ud ex then FNone else
+      match list_meta_of ud with
+      | (hd, tl, llen) =>
+          let seqs := list_seqs s k (h_ver h) in
+          if negb (contig seqs) then FNone else
+          match seqs with
+          | [] => if (hd =? 0) && (tl =? 0) then FNone else if llen =? 0 then FNone else FDel
+          | f :: _ => let l := last seqs f in
+                      if (hd =? f) && (tl =? l) then FNone else FPut (mkM h f l)
+          end
+      end
+  end.
+Definition apply_fix (s : store) (k : bytes) (o : fixop) : store :=
+  match o with FNone => s | FDel => meta_del s TL k | FPut m => meta_put s TL k m end.
+
 Definition do_lpush p s ts k (head : bool) vs : store * reply :=
   if Z.of_nat (length vs) >? max_batch_num then (s, RErr) else
   match coll_prepare p s ts TL k with
@@ -486,8 +516,8 @@ Definition do_lpush p s ts k (head : bool) vs : store * reply :=
             let last := seq0 + (n - 1) * delta in
             if (last <=? list_min_seq) || (last >=? list_max_seq) then (s, RErr) else
             match put_seq s k (h_ver h) seq0 delta vs with
-            | None => (s, RUnmodelled)
-            | Some s1 =>
+            | (s1, false) => (apply_fix s1 k (scanfix p s ts k), RErr)
+            | (s1, true) =>
                 match list_set_meta s1 k h (if head then last else hd) (if head then tl else last) with
                 | None => (s, RUnmodelled)
                 | Some s2 => (s2, RInt (size + n))
@@ -505,7 +535,7 @@ Definition do_lpop p s ts k (head : bool) : store * reply :=
           if size =? 0 then (s, RNil) else
           let seq := if head then hd else tl in
           match el_get s TL k (h_ver h) (SI seq) with
-          | None => (s, RUnmodelled)
+          | None => (apply_fix s k (scanfix p s ts k), RNil)
           | Some e =>
               match list_set_meta (el_del s TL k (h_ver h) (SI seq)) k h (if head then hd + 1 else hd) (if head then tl else tl - 1) with
               | None => (s, RUnmodelled)
